@@ -35,6 +35,11 @@ impl Disp for FromUtf8Error { open spec fn shown(&self) -> Seq<char> { shown_utf
 impl<T: Disp> Disp for &T { open spec fn shown(&self) -> Seq<char> { (**self).shown() } }
 pub trait Dbg { spec fn debugged(&self) -> Seq<char>; }
 impl Dbg for Option<String> { open spec fn debugged(&self) -> Seq<char> { debug_opt_string(*self) } }
+pub uninterp spec fn debug_string(s: Seq<char>) -> Seq<char>;    // the quoted, ESCAPED form: not the raw text
+impl Dbg for String { open spec fn debugged(&self) -> Seq<char> { debug_string(self@) } }
+impl Dbg for &str { open spec fn debugged(&self) -> Seq<char> { debug_string(self@) } }
+impl Dbg for bool { open spec fn debugged(&self) -> Seq<char> { shown_bool(*self) } }
+impl Dbg for i64 { open spec fn debugged(&self) -> Seq<char> { shown_i64(*self) } }
 impl<T: Dbg> Dbg for &T { open spec fn debugged(&self) -> Seq<char> { (**self).debugged() } }
 // D6: `format!("lit{a}lit")` is expanded, piece by piece, into fmt_cat(fmt_lit("lit"), fmt_disp(&a)) ...
 #[verifier::external_body]
@@ -53,6 +58,7 @@ impl StrLike for &String { open spec fn text(&self) -> Seq<char> { self@ } }
 pub fn add_str<T: StrLike>(s: &mut String, x: T) ensures final(s)@ == old(s)@ + x.text() { unimplemented!() }
 // std String::from_utf8 (ASSUMED contract): succeeds exactly on valid UTF-8, with the decoded text
 pub uninterp spec fn utf8_decode(b: Seq<u8>) -> Option<Seq<char>>;
+pub uninterp spec fn string_bytes(s: Seq<char>) -> Seq<u8>;
 #[verifier::external_body]
 pub fn string_from_utf8(v: Vec<u8>) -> (r: std::result::Result<String, FromUtf8Error>)
     ensures (match r { Ok(p) => utf8_decode(v@) == Some(p@), Err(_) => utf8_decode(v@) is None })
@@ -436,6 +442,12 @@ def build(read):
     pr = extract.annotate_fn(pr, spec=SPEC_PRINT)
     aa = extract.annotate_fn(aa, spec=SPEC_ASSERT_ARGS)
     ant = extract.annotate_fn(ant, spec=SPEC_ASSERT_NO_THIS)
+    known = ["new_null", "new_bool", "new_int", "new_str", "new_list", "new_object", "new_str_from_string"]
+    used = sorted(set(re.findall(r"\bvalue::(new_\w+)\(", f + pr + aa + ant)))
+    for n in used:
+        if n not in known:
+            raise Undecided(f"print_render: constructor value::{n} has no contract in parts.value_ctors")
+    ctors = ["new_val_ref_with_no_source"] + used
     eq_model = eq_unit.MODEL
     m = re.search(r"pub mod value \{.*?\n\}\n", eq_model, re.S)
     eq_model = eq_model[:m.start()] + eq_model[m.end():]      # eq's `value::ref_eq` is not called here
@@ -452,7 +464,7 @@ def build(read):
         sel, err_text, parts.ast_text(b, read), parts.value_items(b, read), vm,
         eq_model.replace("macro_rules! format {\n    ($($t:tt)*) => { opaque_format() };\n}\n", ""),
         MODEL,
-        parts.value_ctors(b, read, ["new_val_ref_with_no_source", "new_null"]),
+        parts.value_ctors(b, read, ctors),
         "// ---- functions under contract (verbatim bodies; contract text inserted at anchors)",
         aa, ant, f, pr,
         "// ---- laws of ==, from the eq unit (proved there against eval::eq; re-proved here)",
